@@ -7,7 +7,7 @@ import (
 )
 
 func usage() {
-	fmt.Fprintln(os.Stderr, "usage: vh <schema|rewrite|textvec|cli|api> [flags]")
+	fmt.Fprintln(os.Stderr, "usage: vh <schema|rewrite|textvec|cli|api|sched|stress> [flags]")
 	os.Exit(2)
 }
 
@@ -48,6 +48,16 @@ func main() {
 		out := fs.String("out", "", "results ndjson")
 		fs.Parse(args)
 		err = cmdAPI(*in, *out)
+	case "sched", "stress":
+		fs := flag.NewFlagSet(cmd, flag.ExitOnError)
+		in := fs.String("in", "", "requests ndjson")
+		out := fs.String("out", "", "results ndjson")
+		fs.Parse(args)
+		if cmd == "sched" {
+			err = cmdSched(*in, *out)
+		} else {
+			err = cmdStress(*in, *out)
+		}
 	default:
 		usage()
 	}
